@@ -334,6 +334,9 @@ func c7explore(code []c7ins, stmtOnly bool) c7result {
 			}
 		}
 		for pc, d := range depth {
+			if pc == f.end {
+				continue // "ran off the end" is a pseudo state, not an instruction of this function (it is the next instruction of the enclosing one)
+			}
 			res.depth[pc] = d
 		}
 		// jump targets inside nested function bodies
@@ -364,6 +367,10 @@ func (t *T) Two() (int, int) {
 }
 
 var cnt int
+
+func Reset() {
+	cnt = 0
+}
 
 func z() {
 	cnt++
@@ -466,6 +473,9 @@ func vs(a int, b ...int) int {
 		"u := map[string]int{\"a\": one()}\nr = u[\"a\"]",
 		"u := &T{n: one()}\nr = u.n",
 		"t.n = one()\nt.n += one()\nt.n++",
+		"h2 := func() (int, int) {\n\treturn 1, 2\n}\nx, y := h2()\nif x < y {\n\treturn id(x + y)\n}",
+		"h0 := func() {\n\tcnt++\n}\nh0()\nif cnt > 0 {\n\treturn one()\n}",
+		"h3 := func(p int) (int, int, int) {\n\treturn p, p + 1, p + 2\n}\n_, y, _ := h3(4)\nif y > 0 {\n\treturn t.M(y)\n}",
 		"m[\"k\"] = one()\nm[\"k\"] += one()\nm[\"k\"]++",
 	}
 	hoods := []string{
@@ -499,9 +509,12 @@ func vs(a int, b ...int) int {
 				continue
 			}
 			name := fmt.Sprintf("F%d", len(funcs))
+			funcs = append(funcs, fmt.Sprintf("func W%s(a int, b int) int {\n\tp0, p1, p2 := 11, 22, 33\n\tr := %s(a, b)\n\tif p0 != 11 || p1 != 22 || p2 != 33 {\n\t\treturn 777777\n\t}\n\treturn r\n}\n", name[1:], name))
 			funcs = append(funcs, fmt.Sprintf("func %s(a int, b int) int {\n\tr, q := 0, 0\n\ts := []int{7, 8, 9}\n\tm := map[string]int{\"k\": 5}\n\tt := &T{n: 4}\n%s\treturn r*1000 + q*100 + s[0] + s[1] + m[\"k\"] + t.n + cnt + len(s)\n}\n", name, c02indent(body, "\t")))
-			calls = append(calls, cCall{Fn: name, NRet: 1, Args: []goatlang.Value{goatlang.Int(1), goatlang.Int(0)}}, cCall{Fn: name, NRet: 1, Args: []goatlang.Value{goatlang.Int(0), goatlang.Int(2)}})
-			if len(funcs) == 40 {
+			for _, args := range [][]goatlang.Value{{goatlang.Int(1), goatlang.Int(0)}, {goatlang.Int(0), goatlang.Int(2)}} {
+				calls = append(calls, cCall{Fn: "Reset"}, cCall{Fn: name, NRet: 1, Args: args}, cCall{Fn: "Reset"}, cCall{Fn: "W" + name[1:], NRet: 1, Args: args})
+			}
+			if len(funcs) >= 40 {
 				flush()
 			}
 		}
@@ -663,8 +676,29 @@ func c7checkItem(it *cItem, stmtOnly bool, res *c7result) (problems []string, co
 		return problems, 0
 	}
 	if !first.Failed() {
+		direct := map[string]string{}
 		for _, c := range it.Calls {
-			m.Call(c.Fn, c.NRet, c.Args...)
+			res := m.Call(c.Fn, c.NRet, c.Args...)
+			j := strings.LastIndexByte(c.Fn, '.')
+			if j < 0 || j+2 > len(c.Fn) || c.NRet == 0 {
+				continue
+			}
+			var as []string
+			for _, a := range c.Args {
+				as = append(as, a.String())
+			}
+			key := c.Fn[j+2:] + "(" + strings.Join(as, ",") + ")"
+			obs := cRender(m, res)
+			switch c.Fn[j+1] {
+			case 'F':
+				direct[key] = obs
+			case 'W':
+				// frame isolation, observed: the same function entered from a frame with live locals must behave as when
+				// entered directly, and must leave its caller's locals alone (W returns 777777 if they changed)
+				if d, ok := direct[key]; ok && strings.HasPrefix(d, "ok") && d != obs && len(problems) < 8 {
+					problems = append(problems, fmt.Sprintf("frame isolation: F%s gives %s when called directly but %s when called from a frame with live locals", key, d, obs))
+				}
+			}
 		}
 	}
 	// conformance: each concrete step must be an abstract state with the same depth
